@@ -1,8 +1,405 @@
-/- driver component stub: replaced by the real component when its model exists -/
+/-
+  driver component `tree`: the search-tree model and the C08/C09 predicates on implementation data.
+
+  Text formats (tokens separated by single spaces):
+    rat     `n` | `n/d`                     (floats are sent as their exact rational value)
+    vec     `<ntok> tok*`   tok = `v` | `c*v` (run of c copies of v)
+    cfg     `<cutoff> <noise 0|1> <mix> <ptol> <vtol> <tsize> <ntbl> move4*ntbl`
+            the move table of size `tsize` as the implementation decodes ids (ntbl = 0: use
+            `Gen.allMovesForSize`; other sizes always use `Gen.allMovesForSize`)
+    node    `pos7 mv v0 value sims vec(priors) ev kids`
+            mv   = `-` | `m x y t slides`
+            ev   = `-` | `e value vec(probs) noise`       noise = `-` | `n vec`
+            kids = `-` | `k node*k`
+    answer  `value vec(probs) noise`
+
+  ops:
+    `inv cfg <expected root visits | -> node`    → `ok` | `fail:<i.j.k path or ->:<clause>`
+    `replay cfg n node <nch> choice* <na> answer*` → `ok node` | `fail`      (Tree.analyzeTree)
+    `policyargs C node`                          → `ok <count> (plen path* np prior* K N lamsq q*)*`
+                                                    for every expanded node, pre-order
+    `probs0 C node`                              → `ok vec` (policyProbs of a node with sims = 0; the
+                                                    solver is not consulted) | `needs-solver` | `none`
+    `formula lam sumtol reltol ulps K pi*K q*K w*K` → `ok` | `fail:<why>`   (w is the regularised-policy
+                                                    formula value for one alpha above every q)
+-/
 import TakVerif.Driver.Ser
+import TakVerif.Model.Tree
+import TakVerif.Model.Gen
+import TakVerif.Spec.TreeInv
 
 namespace Tak.Driver.Tree
+open Tak.Ser Tak.Tree
 
-def handle : List String → Option String := fun _ => none
+/-! #### game-over test: a faithful small copy of `Position.winner()` (game.py), used to
+    instantiate `Cfg.outcome` until Model/Winner.lean (C02) is part of the tree -/
+
+def roadSquare (p : Pos) (c : Color) (x y : Int) : Bool :=
+  p.inBounds x y &&
+  match p.atI x y with
+  | pc :: _ => pc.kind.isRoad && pc.color == c
+  | [] => false
+
+/-- `_walk`: depth-first flood fill from the seeds over road squares of colour `c` -/
+def walk (p : Pos) (c : Color) (horiz : Bool) : Nat → List (Int × Int) → List (Int × Int) → Bool
+  | 0, _, _ => false
+  | _ + 1, _, [] => false
+  | fuel + 1, seen, (x, y) :: q =>
+    if (x, y) ∈ seen then walk p c horiz fuel seen q
+    else if !roadSquare p c x y then walk p c horiz fuel ((x, y) :: seen) q
+    else if horiz && x == (p.size : Int) - 1 then true
+    else if !horiz && y == (p.size : Int) - 1 then true
+    else walk p c horiz fuel ((x, y) :: seen) ((x, y - 1) :: (x, y + 1) :: (x - 1, y) :: (x + 1, y) :: q)
+
+def hasRoadOf (p : Pos) (c : Color) : Bool :=
+  let fuel := p.size + 4 * ((p.size + 2) * (p.size + 2)) + 1
+  let left := (List.range p.size).map fun (i : Nat) => ((0 : Int), (i : Int))
+  let top := (List.range p.size).map fun (i : Nat) => ((i : Int), (0 : Int))
+  walk p c true fuel [] left.reverse || walk p c false fuel [] top.reverse
+
+def flatsWinner (p : Pos) : Option Color :=
+  let cnt (c : Color) : Nat :=
+    (p.board.filter fun sq => match sq with
+      | pc :: _ => pc.kind == .flat && pc.color == c
+      | [] => false).length
+  let w := cnt .white
+  let b := cnt .black
+  if w > b then some .white else if w < b then some .black else none
+
+/-- `Position.winner()`: `none` = `(None, None)` -/
+def outcome (p : Pos) : Option (Option Color) :=
+  let w := hasRoadOf p .white
+  let b := hasRoadOf p .black
+  if w && b then some (some p.toMove.flip)
+  else if w then some (some .white)
+  else if b then some (some .black)
+  else if p.board.all (fun sq => !sq.isEmpty) || p.wStones + p.wCaps == 0 || p.bStones + p.bCaps == 0 then
+    some (flatsWinner p)
+  else none
+
+/-! #### parsing -/
+
+def parseRat (s : String) : Option Rat :=
+  match s.splitOn "/" with
+  | [n] => n.toInt?.map fun (i : Int) => (i : Rat)
+  | [n, d] => do
+    let n ← n.toInt?
+    let d ← d.toNat?
+    if d = 0 then none else pure (mkRat n d)
+  | _ => none
+
+def showRat (r : Rat) : String :=
+  if r.den = 1 then toString r.num else s!"{r.num}/{r.den}"
+
+def parseRle (s : String) : Option (List Rat) :=
+  match s.splitOn "*" with
+  | [v] => (parseRat v).map fun r => [r]
+  | [c, v] => do
+    let c ← c.toNat?
+    let r ← parseRat v
+    pure (List.replicate c r)
+  | _ => none
+
+/-- `<ntok> tok*` -/
+def parseVec : List String → Option (List Rat × List String)
+  | n :: rest => do
+    let n ← n.toNat?
+    if rest.length < n then none
+    else
+      let parts ← (rest.take n).mapM parseRle
+      pure (parts.flatten, rest.drop n)
+  | [] => none
+
+def parseNoise : List String → Option (Option (List Rat) × List String)
+  | "-" :: rest => some (none, rest)
+  | "n" :: rest => do
+    let (v, rest) ← parseVec rest
+    pure (some v, rest)
+  | _ => none
+
+/-- `value vec(probs) noise` -/
+def parseAnswer : List String → Option (Answer × List String)
+  | v :: rest => do
+    let v ← parseRat v
+    let (probs, rest) ← parseVec rest
+    let (nz, rest) ← parseNoise rest
+    pure ({ probs := probs, value := v, noise := nz }, rest)
+  | [] => none
+
+def parseEv : List String → Option (Option Answer × List String)
+  | "-" :: rest => some (none, rest)
+  | "e" :: rest => do
+    let (a, rest) ← parseAnswer rest
+    pure (some a, rest)
+  | _ => none
+
+def parseMv : List String → Option (Option Move × List String)
+  | "-" :: rest => some (none, rest)
+  | "m" :: rest => do
+    let m ← parseMove (rest.take 4)
+    pure (some m, rest.drop 4)
+  | _ => none
+
+mutual
+/-- fuel: an upper bound on the number of tokens -/
+def parseNode : Nat → List String → Option (Node × List String)
+  | 0, _ => none
+  | fuel + 1, toks => do
+    let p ← parsePos (toks.take 7)
+    let (mv, rest) ← parseMv (toks.drop 7)
+    match rest with
+    | v0 :: value :: sims :: rest =>
+      let v0 ← parseRat v0
+      let value ← parseRat value
+      let sims ← sims.toNat?
+      let (priors, rest) ← parseVec rest
+      let (ev, rest) ← parseEv rest
+      match rest with
+      | "-" :: rest =>
+        pure ({ position := p, move := mv, v0 := v0, value := value, sims := sims, children := none,
+                priors := priors, ev := ev }, rest)
+      | k :: rest =>
+        let k ← k.toNat?
+        let (cs, rest) ← parseNodes fuel k rest
+        pure ({ position := p, move := mv, v0 := v0, value := value, sims := sims, children := some cs,
+                priors := priors, ev := ev }, rest)
+      | [] => none
+    | _ => none
+def parseNodes : Nat → Nat → List String → Option (List Node × List String)
+  | 0, _, _ => none
+  | _ + 1, 0, toks => some ([], toks)
+  | fuel + 1, k + 1, toks => do
+    let (c, rest) ← parseNode fuel toks
+    let (cs, rest) ← parseNodes fuel k rest
+    pure (c :: cs, rest)
+end
+
+structure ParsedCfg where
+  cfg : Cfg
+  tol : Tol
+
+def parseMoves : Nat → List String → Option (List Move × List String)
+  | 0, toks => some ([], toks)
+  | k + 1, toks => do
+    let m ← parseMove (toks.take 4)
+    let (ms, rest) ← parseMoves k (toks.drop 4)
+    pure (m :: ms, rest)
+
+def parseCfg : List String → Option (ParsedCfg × List String)
+  | cutoff :: noise :: mix :: ptol :: vtol :: tsize :: ntbl :: rest => do
+    let cutoff ← parseRat cutoff
+    let noise ← noise.toNat?
+    let mix ← parseRat mix
+    let ptol ← parseRat ptol
+    let vtol ← parseRat vtol
+    let tsize ← tsize.toNat?
+    let ntbl ← ntbl.toNat?
+    let (tbl, rest) ← parseMoves ntbl rest
+    let own := if ntbl = 0 then Gen.allMovesForSize tsize else tbl
+    let table : Nat → List Move := fun n => if n = tsize then own else Gen.allMovesForSize n
+    pure ({ cfg := { cutoff := cutoff, noise := noise != 0, mix := mix, outcome := outcome, table := table },
+            tol := ⟨ptol, vtol⟩ }, rest)
+  | _ => none
+
+/-! #### printing -/
+
+def pushVec (acc : Array String) (v : List Rat) : Array String :=
+  v.foldl (fun a r => a.push (showRat r)) (acc.push (toString v.length))
+
+/-- runs of equal values as `c*v` -/
+def rleRuns : List Rat → List (Nat × Rat)
+  | [] => []
+  | x :: r =>
+    match rleRuns r with
+    | (c, y) :: rest => if x = y then (c + 1, y) :: rest else (1, x) :: (c, y) :: rest
+    | [] => [(1, x)]
+
+def pushVecRle (acc : Array String) (v : List Rat) : Array String :=
+  let runs := rleRuns v
+  runs.foldl (fun a r => a.push (if r.1 = 1 then showRat r.2 else s!"{r.1}*{showRat r.2}"))
+    (acc.push (toString runs.length))
+
+def pushAnswer (acc : Array String) (a : Answer) : Array String :=
+  let acc := pushVecRle (acc.push (showRat a.value)) a.probs
+  match a.noise with
+  | none => acc.push "-"
+  | some nz => pushVecRle (acc.push "n") nz
+
+mutual
+def pushNode (acc : Array String) : Node → Array String
+  | ⟨p, mv, v0, value, sims, cs, priors, ev⟩ =>
+    let acc := acc.push (showPos p)
+    let acc := match mv with
+      | none => acc.push "-"
+      | some m => (acc.push "m").push (showMove m)
+    let acc := ((acc.push (showRat v0)).push (showRat value)).push (toString sims)
+    let acc := pushVec acc priors
+    let acc := match ev with
+      | none => acc.push "-"
+      | some a => pushAnswer (acc.push "e") a
+    pushKids acc cs
+def pushKids (acc : Array String) : Option (List Node) → Array String
+  | none => acc.push "-"
+  | some l => pushList (acc.push (toString l.length)) l
+def pushList (acc : Array String) : List Node → Array String
+  | [] => acc
+  | c :: r => pushList (pushNode acc c) r
+end
+
+def showNode (t : Node) : String := " ".intercalate (pushNode #[] t).toList
+
+def showPath (p : List Nat) : String :=
+  if p.isEmpty then "-" else ".".intercalate (p.map toString)
+
+/-! #### policy arguments of every expanded node -/
+
+def pushArgs (acc : Array String) (path : List Nat) (a : PolicyArgs) : Array String :=
+  let acc := path.reverse.foldl (fun a i => a.push (toString i)) (acc.push (toString path.length))
+  let acc := pushVec acc a.prior
+  let acc := ((acc.push (toString a.K)).push (toString a.N)).push (showRat a.lamSq)
+  a.q.foldl (fun x r => x.push (showRat r)) acc
+
+mutual
+/-- `path` is kept reversed; the counter counts expanded nodes -/
+def argsNode (C : Rat) (path : List Nat) (acc : Array String × Nat) : Node → Array String × Nat
+  | ⟨p, mv, v0, value, sims, cs, priors, ev⟩ =>
+    let acc := match policyArgs ⟨p, mv, v0, value, sims, cs, priors, ev⟩ C with
+      | some a => (pushArgs acc.1 path a, acc.2 + 1)
+      | none => acc
+    argsKids C path acc cs
+def argsKids (C : Rat) (path : List Nat) (acc : Array String × Nat) : Option (List Node) → Array String × Nat
+  | none => acc
+  | some l => argsList C path 0 acc l
+def argsList (C : Rat) (path : List Nat) (i : Nat) (acc : Array String × Nat) : List Node → Array String × Nat
+  | [] => acc
+  | c :: r => argsList C path (i + 1) (argsNode C (i :: path) acc c) r
+end
+
+/-! #### the regularised-policy formula on a solver output -/
+
+def rmax (l : List Rat) : Option Rat :=
+  match l with
+  | [] => none
+  | x :: r => some (r.foldl (fun a b => if a < b then b else a) x)
+
+def pow2 (e : Int) : Rat :=
+  if 0 ≤ e then ((2 ^ e.toNat : Nat) : Rat) else 1 / ((2 ^ (-e).toNat : Nat) : Rat)
+
+/-- for `r > 0`: the `e` with `2^e ≤ r < 2^(e+1)` -/
+def floorLog2 (r : Rat) : Int :=
+  let e0 : Int := (Nat.log2 r.num.toNat : Int) - (Nat.log2 r.den : Int)
+  if pow2 e0 ≤ r then e0 else e0 - 1
+
+/-- spacing of float32 numbers around `r` (normal range) -/
+def ulp32 (r : Rat) : Rat :=
+  if r = 0 then 0 else pow2 (floorLog2 (rabs r) - 23)
+
+/-- `w` is `lam*pi/(alpha - q)` componentwise for ONE `alpha` above every `q`, to relative accuracy
+    `reltol` of `alpha - q_i`; all weights non-negative; total within `sumtol` of 1, widened by the
+    change of the total across `ulps` float32 steps of `alpha` (the resolution the solver's
+    single-precision normaliser can reach, C10) -/
+def formulaFail (lam sumtol reltol ulps : Rat) (pi q w : List Rat) : Option String :=
+  if pi.length ≠ q.length ∨ w.length ≠ q.length then some "length"
+  else if w.any (· < 0) then some "negative-weight"
+  else if lam ≤ 0 then some "multiplier-not-positive"
+  else
+    let rows := (pi.zip (q.zip w))
+    if rows.any (fun r => r.1 < 0) then some "negative-prior"
+    else if rows.any (fun r => (r.1 = 0 ∧ r.2.2 ≠ 0) ∨ (0 < r.1 ∧ r.2.2 = 0)) then some "zero-pattern"
+    else
+      -- alpha recovered from every component with positive prior, with its gap alpha - q_i and weight
+      let als := rows.filterMap fun r =>
+        if 0 < r.1 then some (r.2.1 + lam * r.1 / r.2.2, lam * r.1 / r.2.2, r.2.2) else none
+      match als with
+      | [] => some "no-positive-prior"
+      | a0 :: rest =>
+        let best := rest.foldl (fun a b => if b.2.1 < a.2.1 then b else a) a0
+        match rmax q with
+        | none => some "empty"
+        | some mq =>
+          if ¬ mq < best.1 then some "alpha-not-above-max-q"
+          else if als.any (fun a => reltol * (a.2.1 + best.2.1) < rabs (a.1 - best.1)) then some "not-one-alpha"
+          else
+            let slope := (als.map fun a => a.2.2 / a.2.1).sum
+            if sumtol + ulps * ulp32 best.1 * slope < rabs (w.sum - 1) then some "sum-not-one"
+            else none
+
+/-! #### ops -/
+
+def handle : List String → Option String
+  | "inv" :: rest => do
+    let (pc, rest) ← parseCfg rest
+    match rest with
+    | expect :: rest =>
+      let (t, rest) ← parseNode (rest.length + 1) rest
+      if !rest.isEmpty then none
+      else if expect ≠ "-" ∧ expect.toNat? ≠ some t.sims then pure "fail:-:root-visits"
+      else
+        match treeInvFail pc.cfg pc.tol t with
+        | none => pure "ok"
+        | some (path, clause) => pure s!"fail:{showPath path}:{clause}"
+    | [] => none
+  | "replay" :: rest => do
+    let (pc, rest) ← parseCfg rest
+    match rest with
+    | n :: rest =>
+      let n ← n.toNat?
+      let (t, rest) ← parseNode (rest.length + 1) rest
+      match rest with
+      | nch :: rest =>
+        let nch ← nch.toNat?
+        if rest.length < nch then none
+        else
+          let choices ← (rest.take nch).mapM String.toNat?
+          match rest.drop nch with
+          | na :: rest =>
+            let na ← na.toNat?
+            let rec answers : Nat → List String → Option (List Answer × List String)
+              | 0, toks => some ([], toks)
+              | k + 1, toks => do
+                let (a, toks) ← parseAnswer toks
+                let (as, toks) ← answers k toks
+                pure (a :: as, toks)
+            let (as, rest) ← answers na rest
+            if !rest.isEmpty then none
+            else
+              match analyzeTree pc.cfg n t choices as with
+              | none => pure "fail"
+              | some t' => pure s!"ok {showNode t'}"
+          | [] => none
+      | [] => none
+    | [] => none
+  | "policyargs" :: c :: rest => do
+    let C ← parseRat c
+    let (t, rest) ← parseNode (rest.length + 1) rest
+    if !rest.isEmpty then none
+    else
+      let (acc, cnt) := argsNode C [] (#[], 0) t
+      pure (" ".intercalate ("ok" :: toString cnt :: acc.toList))
+  | "probs0" :: c :: rest => do
+    let C ← parseRat c
+    let (t, rest) ← parseNode (rest.length + 1) rest
+    if !rest.isEmpty then none
+    else if t.sims ≠ 0 then pure "needs-solver"
+    else
+      -- the solver is an oracle: the answer must not depend on it
+      match policyProbs (fun a => a.q) t C, policyProbs (fun _ => []) t C with
+      | some v, some v' => if v = v' then pure (" ".intercalate ("ok" :: (pushVec #[] v).toList)) else pure "needs-solver"
+      | _, _ => pure "none"
+  | "formula" :: lam :: sumtol :: reltol :: ulps :: k :: rest => do
+    let lam ← parseRat lam
+    let sumtol ← parseRat sumtol
+    let reltol ← parseRat reltol
+    let ulps ← parseRat ulps
+    let k ← k.toNat?
+    if rest.length ≠ 3 * k then none
+    else
+      let pi ← (rest.take k).mapM parseRat
+      let q ← ((rest.drop k).take k).mapM parseRat
+      let w ← (rest.drop (2 * k)).mapM parseRat
+      match formulaFail lam sumtol reltol ulps pi q w with
+      | none => pure "ok"
+      | some why => pure s!"fail:{why}"
+  | _ => none
 
 end Tak.Driver.Tree
